@@ -1644,6 +1644,12 @@ def generated(ctx):
     ctx.notes["method_table_entries"] = len(extract_c03.METHODS) * (len(rows2) + len(extract_c03.OTHER_CLASSES))
     common.build_generated(ctx, files, extract_c03.GEN_TARGETS, extract_c03.N_OBLIGATIONS)
     ctx._c03_rows = (rows2, rows3)
+    # the isinstance ladder itself, TRANSLATED from the source text of the working tree (harness/py2lean.py) and
+    # proved equal to the hand-written `ladder` (GenProps/C03Ladder.lean: genLadder_eq)
+    from . import trans_c03
+    lfiles, why = trans_c03.generated_files()
+    ctx.notes["ladder_translation"] = "ok" if why is None else "untranslatable: " + why
+    common.build_generated(ctx, lfiles, trans_c03.GEN_TARGETS, trans_c03.N_OBLIGATIONS)
 
 
 def new_aux():
